@@ -27,7 +27,7 @@ import evalstream as es
 
 PID = "C01"
 MANIFEST = {
-    "text": "11 Coq theorems over the evaluator model (explicit Panic outcome for every partial Rust operation on a "
+    "text": "10 Coq theorems over the evaluator model (explicit Panic outcome for every partial Rust operation on a "
             "modelled path): evaluation at any call-depth budget from any configuration whose innermost frame is Owned "
             "never returns Panic and keeps that invariant — for every operator/built-in implementation that does not "
             "panic itself and every build whose factorial does not overflow; hypotheses discharged for the transcribed "
@@ -600,41 +600,40 @@ def correspondence(h, hd, rng, quick, res):
              "[18446744073709551616] via (n => n!)", "map([3, 18446744073709551616], n => n!)"]
     srcs += facts
     coq, _ = es.parse_to_coq(h, srcs)
-    defs = ""
-    for build, harness, fn in (("release", h, "run_program"), ("debug", hd, "run_program_dbg")):
+    extra = ("Definition run_program_dbg (inputs : list (string * value)) (prog : list stmt) : string := "
+             "show_run (run eval_debug (init_session inputs) prog).")
+    inp = "[" + "; ".join('((hx "%s"), %s)' % (c.hexs(k), v.coq()) for k, v in es.DEFAULT_INPUTS.p) + "]"
+    idx = [i for i, p in enumerate(coq) if p is not None]
+    exprs = ["(run_program_dbg INP %s)" % coq[i] for i in idx]
+    outs = c.coq_eval_batch(es.REQUIRES, "Definition INP : list (string * value) := %s.\n%s" % (inp, extra), exprs,
+                            "c01dbg", shard=250)
+    model_dbg = [None] * len(coq)
+    for i, o in zip(idx, outs):
+        model_dbg[i] = o
+    model_rel = es.model_eval(coq, tag="c01rel")
+    # The only Panic of the instantiated model is the debug-build factorial overflow (theorems
+    # C01_eval_release_no_panic, C01_factorial_debug_panics_only_in_known_class), so "the debug model panics"
+    # IS membership in the open known-finding class factorial-large.  Such programs are counted and left out of
+    # the diff (the positive theorems claim nothing about them; a repair of the defect must not raise an alarm).
+    in_known = [m is not None and "PANIC" in m for m in model_dbg]
+    if any(m is not None and "PANIC" in m for m in model_rel):
+        res.tie_broken("the release model returned Panic, contradicting C01_eval_release_no_panic (model evaluation is broken)")
+    for build, harness, model in (("release", h, model_rel), ("debug", hd, model_dbg)):
         rust = es.rust_eval(harness, srcs)
-        if build == "debug":
-            extra = ("Definition run_program_dbg (inputs : list (string * value)) (prog : list stmt) : string := "
-                     "show_run (run eval_debug (init_session inputs) prog).")
-            inp = "[" + "; ".join('((hx "%s"), %s)' % (c.hexs(k), v.coq()) for k, v in es.DEFAULT_INPUTS.p) + "]"
-            idx = [i for i, p in enumerate(coq) if p is not None]
-            exprs = ["(run_program_dbg INP %s)" % coq[i] for i in idx]
-            outs = c.coq_eval_batch(es.REQUIRES, "Definition INP : list (string * value) := %s.\n%s" % (inp, extra), exprs,
-                                    "c01dbg", shard=250)
-            model = [None] * len(coq)
-            for i, o in zip(idx, outs):
-                model[i] = o
-        else:
-            model = es.model_eval(coq, tag="c01rel")
-        agree, mism, skipped, rejected, panics_model, panics_impl = 0, [], 0, 0, 0, 0
-        for s_, r_, m_ in zip(srcs, rust, model):
+        agree, mism, skipped, rejected, known_n, known_confirmed, panics_impl = 0, [], 0, 0, 0, 0, 0
+        for i, (s_, r_, m_) in enumerate(zip(srcs, rust, model)):
             if m_ is None:
                 rejected += 1
                 continue
             if "UNMODELLED" in m_:
                 skipped += 1
                 continue
-            pm = "PANIC" in m_
             pi = "PANIC" in r_ or r_.startswith("ABORT")
-            panics_model += pm
             panics_impl += pi
-            if pm or pi:
-                # a Panic on either side must be matched by a panic on the other (the model's Panic arms
-                # are transcriptions); only the statement where it happens is compared
-                if pm and pi:
-                    agree += 1
-                else:
-                    mism.append((s_, r_, m_))
+            if in_known[i]:
+                known_n += 1
+                if build == "debug" and pi:
+                    known_confirmed += 1      # the defect is still there and the model's Panic arm matches it
                 continue
             if r_ == m_:
                 agree += 1
@@ -644,7 +643,8 @@ def correspondence(h, hd, rng, quick, res):
             res.tie_broken("correspondence C01/EVAL-%s: model and implementation disagree on %d of %d programs"
                            % (build, len(mism), len(srcs)), "first: %r\nimpl : %s\nmodel: %s" % mism[0])
         out["EVAL-" + build] = {"programs": len(srcs), "agree": agree, "mismatches": len(mism), "skipped_unmodelled": skipped,
-                                "parser_rejected": rejected, "panic_in_model": panics_model, "panic_in_impl": panics_impl}
+                                "parser_rejected": rejected, "in_open_known_class_excluded": known_n,
+                                "known_class_panic_confirmed_on_impl": known_confirmed, "panic_in_impl": panics_impl}
         res.coverage["traces_validated_against_impl"] = res.coverage.get("traces_validated_against_impl", 0) + agree
     return out
 
